@@ -185,6 +185,15 @@ def _shard_fieldsweep(args):
             scripts[tid] = {'driver': 'fieldsweep', 'prog': prog, 'variant': variant, 'seed': seed, 'nsteps': 1,
                             'mode': 'fieldsweep', 'i': i, 'per_class': per_class, 'script': tr.pop('script')}
             traces.append(tr)
+        # primitive puts (Constant.value, identifiers) on every slot class of the program
+        mplans = edits.plan_prim_sweep(tree, random.Random(seed + 1), per_class)
+        for j, m in enumerate(mplans):
+            i = len(plans) + j
+            tid = tid0 + i
+            tr = sweep.run_single_misc(rec, tid, seed + i, src, m)
+            scripts[tid] = {'driver': 'fieldsweep', 'prog': prog, 'variant': variant, 'seed': seed, 'nsteps': 1,
+                            'mode': 'fieldsweep', 'i': i, 'per_class': per_class, 'script': tr.pop('script')}
+            traces.append(tr)
     return dict(rec.tab.dump(), traces=traces), scripts
 
 
